@@ -39,6 +39,7 @@ func runC15(c *core.Ctx) {
 		c.Doc("C13.table", "the signal registration table is read and written under its mutex and not used after the lock is released", 8)
 		guardedBy(c, lc13, newEntryLocks(c, lc13), "C13.table", guardedField{Rel: "bus", Struct: "signalHandler", Field: "signals", Mutex: "signalsMutex",
 			Reason: "registrations are added/removed by the mailbox goroutine, by disconnect closers and read by emitters"})
+		ruleNoStaleElementPointerInBus(c, "C13.table")
 	}
 	c.Doc("C14.serial", "the directory object's mails are handled one at a time by one goroutine (rule shared with C14)", 2)
 	ruleMailboxSerial(c, "C14.serial")
